@@ -151,6 +151,24 @@ def windowed_then_op(rng):
     return p, cur
 
 
+def mutual_hidden_join(rng):
+    """A join of two projected relations each of which hides a column the other one shows (and, sometimes, only one of
+    them does): every output column must come from the operand that shows it."""
+    k, x, y = K(1), N(1), N(2)
+    cols = [k, x, y]
+    def rows(sign):
+        return [{k: i, x: sign * (10 * i + rng.choice((1, 2))), y: sign * (100 * i + rng.choice((1, 2)))} for i in rng.sample([1, 2, 3], rng.choice([2, 3]))]
+    A = ("leaf", 1, SQL, sorted(cols), rows(1), (0, None))
+    B = ("leaf", 2, SQL, sorted(cols), rows(-1), (0, None))
+    ka, kb = rng.choice([([k, y], [k, x]), ([k, x], [k, y]), ([k], [k, x]), ([k, y], [k]), ([k, x, y], [k])])
+    l = ("un", ("proj", sorted(ka)), mp.DEFAULT, A)
+    r = ("un", ("proj", sorted(kb)), mp.DEFAULT, B)
+    if rng.random() < 0.2:
+        l = ("un", ("sel", ("cmp", "ge", ("ref", k), ("lit", 1))), mp.DEFAULT, l)
+    p = ("join", None, True, False, l, r) if rng.random() < 0.5 else ("join", None, True, False, r, l)
+    return p
+
+
 def dedup_then_project(rng):
     """A deduplication (DISTINCT / UNION) followed by a projection that drops a column on which surviving rows still
     differ: over a leaf, a chain, a join; with sorts and slices around.  The projection must NOT be moved below the
